@@ -501,6 +501,9 @@ func (pool *hostConnPool) fill() {
 }
 
 func (pool *hostConnPool) logConnectErr(err error) {
+	if err == errPoolClosed {
+		return
+	}
 	if opErr, ok := err.(*net.OpError); ok && (opErr.Op == "dial" || opErr.Op == "read") {
 		// connection refused
 		// these are typical during a node outage so avoid log spam.
@@ -515,6 +518,13 @@ func (pool *hostConnPool) logConnectErr(err error) {
 
 // transition back to a not-filling state.
 func (pool *hostConnPool) fillingStopped(err error) {
+	if err == errPoolClosed {
+		// nothing failed: the pool is gone, there is nobody to convict
+		pool.mu.Lock()
+		pool.filling = false
+		pool.mu.Unlock()
+		return
+	}
 	if err != nil {
 		if gocqlDebug {
 			pool.logger.Printf("gocql: filling stopped %q: %v\n", pool.host.ConnectAddress(), err)
@@ -575,6 +585,8 @@ func (pool *hostConnPool) connectMany(count int) error {
 	return connectErr
 }
 
+var errPoolClosed = errors.New("gocql: connection pool was closed while connecting")
+
 // create a new connection to the host and add it to the pool
 func (pool *hostConnPool) connect() (err error) {
 	// TODO: provide a more robust connection retry mechanism, we should also
@@ -622,7 +634,8 @@ func (pool *hostConnPool) connect() (err error) {
 		// connection calls pool.HandleError, which takes the lock (see the comment in Close)
 		pool.mu.Unlock()
 		conn.Close()
-		return nil
+		// not a connection of this pool: the caller must not report the host as connected
+		return errPoolClosed
 	}
 
 	if conn.Closed() {
